@@ -686,7 +686,9 @@ func (a *Actor) DrawMineOpts(t *rapid.T, order int) MineOpts {
 			o.Lock = 1
 		}
 		o.Data = append([]byte{o.Lock}, a.Contracts[0].Bytes()...)
-		switch rapid.IntRange(0, 2).Draw(t, "delegate") {
+		// the delegate rotates with the height (none / A / B), so that consecutive rewards of the
+		// tranche differ in it (a drawn value is mostly the smallest one in rapid's early cases)
+		switch (a.ZoneNumber() + a.Salt) % 3 {
 		case 1:
 			o.Data = append(o.Data, a.quai[0].Addr.Bytes()...)
 		case 2:
